@@ -20,7 +20,10 @@ property oracle on the real code's outputs.  Streams:
       Compared with the model AND with the oracle (plain Python slicing, independent of the
       model): stored bytes read from the backend once the client holds the 226, bytes received
       before EOF, and stat / list size / a full RETR from a SECOND session.
-  (e) the restart offset across command sequences (offset_after) vs the real dispatcher.
+  (e) the restart offset across command sequences with RETRs anywhere in them, also back to back
+      over one passive listener (transfer_trace) vs the real dispatcher, and vs the plain-Python oracle
+      "REST applies to exactly the next transfer command".
+  (f) REST n + STOR/APPE on a MISSING file on all three backends: 451, nothing created, session goes on.
 
 Smoke test of the session driver:
     PYTHONPATH=/repo/src:. /venv/bin/python -c "from harness.props import c01; print(c01.smoke())"
@@ -58,7 +61,9 @@ LEVEL_TEXT = (
     "Proved for the model (Closed under the global context): C01_stor_exact, C01_stor_exact_conforming, C01_retr_exact, "
     "C01_retr_exact_segs, C01_stor_chunking_irrelevant, C01_retr_chunking_irrelevant, C01_upload_exact, C01_download_exact, "
     "C01_network_reads_conforming, C01_file_reads_conforming, C01_early_stop_impossible, C01_reply_after_close, "
-    "C01_visible_after_226, C01_later_retr_sees_new_content, C01_rest_survives, the write_at lemmas, and the closed obligations "
+    "C01_visible_after_226, C01_later_retr_sees_new_content, C01_rest_applies_to_next_transfer, C01_offset_applies_to_next_command_only, "
+    "C01_second_transfer_starts_at_0, C01_back_to_back (a restart offset is served to exactly the next transfer command), "
+    "C01_stor_missing_file (REST n + STOR/APPE on a missing file: 451, nothing created), the write_at lemmas, and the closed obligations "
     "C01_source_facts / C01_verb_modes / C01_source_programs on the regenerated facts; C01_model_is_program_denotation, "
     "C01_stor_prog_exact, C01_retr_prog_exact, C01_upload_prog_exact, C01_download_prog_exact, C01_upload_path_exact, "
     "C01_download_path_exact (about the translated programs); C01_timed_reads_conforming, C01_timed_stor_exact, "
@@ -75,8 +80,7 @@ LEVEL_NOTE = (
     "BufferedWriter flushing at close, StreamReader.read (assumption read_conforming: empty only at EOF) and async-with "
     "enter/exit order. Throttling, latency and stalls are inputs of the TIMED model (any wait/append functions, any arrival "
     "instants) and are proved not to change the bytes (C01_*_timing_irrelevant); that the real Throttle only sleeps and counts "
-    "(ThrottleStreamIO.read/write bodies) is a regenerated fact, and the sessions with throttles / latency / stalls sample it. Carved out by hypothesis: REST n + STOR/APPE on a MISSING file (C18/F6) and a second "
-    "transfer re-using the offset with no command in between (C05/F14)."
+    "(ThrottleStreamIO.read/write bodies) is a regenerated fact, and the sessions with throttles / latency / stalls sample it. Nothing is carved out since the repair of F14 and F06: back-to-back transfers and REST + upload on a missing file are inside the theorems and the corpus."
 )
 TRUSTED = [
     "read_conforming (hypothesis `conforming` of the model theorems): read(n>=1) of asyncio.StreamReader, io.BytesIO and a regular "
@@ -92,7 +96,7 @@ TRUSTED = [
 ASSUMPTIONS = [
     "modelled, not verified: TCP ordering, asyncio.StreamReader/StreamWriter, io.BytesIO, OS files and BufferedWriter, "
     "asyncio's async-with semantics; the tmpdir backends run on the local file system of the checking machine",
-    "carved out: 'r+b' on a missing file (C18), restart offset re-used by back-to-back transfers without an intervening command (C05)",
+    "no carve-out: 'r+b' on a missing file (451, nothing created) and back-to-back transfers (second one served from 0) are part of the statement",
 ]
 
 MODES = {"wb": 0, "ab": 1, "r+b": 2, "rb": 3}
@@ -408,6 +412,9 @@ async def _run_case(net, case, base):
             store.put(FNAME, old)
     else:
         store.put(FNAME, payload)
+    if any(p[0] in ("STOR", "APPE") and p[1] for p in case["pre"]):
+        # an earlier REST + upload pair needs an EXISTING target (on a missing one it is refused with 451)
+        store.put("pre.bin", b"previous-previous")
 
     segs = {"data_up": [], "data_down": [], "ctrl": []}
     session = {"n": 0}
@@ -867,7 +874,7 @@ def gen_session_cases(ctx, scale):
                 for old in olds:
                     for olabel, off in offsets_for(len(old or b"")):
                         if off and old is None:
-                            continue  # REST + STOR on a missing file: C18
+                            continue  # REST + STOR/APPE on a missing file (451, nothing created): stream (f), missing_restart_stream
                         if eff == 8192 and olabel not in ("0", "inside") and not thorough:
                             continue
                         chunks = rng.choice([[], [1], [2, 3], [eff], [max(1, eff - 1)], [eff + 1], [0, 5]])
@@ -1109,22 +1116,51 @@ def session_stream(ctx, xcheck, scale, reps=1):
     ctx.count("session_cases", len(cases))
 
 
+def py_offsets(seq):
+    """the property oracle for the restart offset, plain Python: REST n is pending for exactly the next
+    command; a transfer command is served from what is pending when it is dispatched; any known
+    command consumes it; an unknown one (502) does not."""
+    pending, out = 0, []
+    for s in seq:
+        if s[0] == "rest":
+            pending = s[1]
+        elif s[0] == "retr":
+            out.append(pending)
+            pending = 0
+        elif s[0] == "noop":  # not implemented by aioftp: 502, nothing else happens
+            pass
+        else:
+            pending = 0
+    return out
+
+
 def offset_stream(ctx, xcheck):
-    """(e) offset_after vs the real dispatcher: command sequences through a raw control channel,
-    then a RETR whose first byte tells the offset that was used"""
+    """(e) transfer_trace vs the real dispatcher: command sequences through the control channel with
+    RETRs anywhere in them -- including back to back, with no command in between, over the same
+    passive listener; the first byte of each download tells the offset it was served from"""
     rng = ctx.rng
     content = bytes(range(40, 80))
-    VERBS = {"type": (1, 0, "TYPE I"), "pasv": (1, 1, "PASV"), "epsv": (1, 2, "EPSV"), "noop": (1, 6, "NOOP")}
-    seqs = []
-    for _ in range(40):
+    VERBS = {"type": (1, 0, "TYPE I"), "noop": (1, 6, "NOOP"), "retr": (1, 5, "RETR " + FNAME)}
+    seqs = [
+        [("rest", 4), ("retr",), ("retr",)],  # the former F14 witness
+        [("rest", 7), ("retr",), ("retr",), ("retr",)],
+        [("rest", 5), ("noop",), ("retr",), ("noop",), ("retr",)],
+        [("rest", 3), ("type",), ("retr",)],
+        [("rest", 9), ("rest", 2), ("retr",), ("rest", 6), ("retr",), ("retr",)],
+    ]
+    for _ in range(45):
         seq = []
-        for _ in range(rng.randint(0, 4)):
-            if rng.random() < 0.5:
+        for _ in range(rng.randint(0, 6)):
+            x = rng.random()
+            if x < 0.4:
                 seq.append(("rest", rng.randint(0, 30)))
+            elif x < 0.7:
+                seq.append(("retr",))
             else:
                 seq.append((rng.choice(["type", "noop"]),))
-        seqs.append(seq)
-    mo = ctx.model([(9, [[[0, s[1]] if s[0] == "rest" else [1, VERBS[s[0]][1]] for s in seq] + [[1, 5]]]) for seq in seqs])
+        seqs.append(seq + [("retr",)])
+    enc = lambda seq: [[[0, s[1]] if s[0] == "rest" else [1, VERBS[s[0]][1]] for s in seq]]
+    mo = ctx.model([(9, enc(seq)) for seq in seqs])
 
     async def one(net, seq):
         server = aioftp.Server([aioftp.User(base_path="/", home_path="/")], path_io_factory=aioftp.MemoryPathIO, block_size=4)
@@ -1133,31 +1169,129 @@ def offset_stream(ctx, xcheck):
         c = aioftp.Client(passive_commands=("pasv",))
         await c.connect("127.0.0.1", 2121)
         await c.login()
-        # open the data connection FIRST (TYPE/PASV are non-transfer commands and would reset)
-        reader, writer = await c.get_passive_connection("I")
+        # ONE passive listener for the whole sequence (TYPE/PASV are commands and would consume a pending offset)
+        await c.command("TYPE I", "200")
+        ip, port = await c._do_pasv()
+        got = []
         for s in seq:
+            if s[0] == "retr":
+                reader, writer = await c._open_connection(c.server_host if ip in ("0.0.0.0", None) else ip, port)
+                await c.command("RETR " + FNAME, "1xx")
+                got.append(await reader.read())
+                writer.close()
+                await c.command(None, "2xx")
+                continue
             line = f"REST {s[1]}" if s[0] == "rest" else VERBS[s[0]][2]
             try:
                 await c.command(line, ("2xx", "3xx", "5xx"))
             except aioftp.StatusCodeError:
                 pass
-        await c.command("RETR " + FNAME, "1xx")
-        got = await reader.read()
-        writer.close()
-        await c.command(None, "2xx")
         await c.quit()
         await server.close()
         return got
 
+    n_b2b = 0
     for seq, m in zip(seqs, mo):
-        ctx.case(("offset_after", tuple(seq)))
+        ctx.case(("transfer_trace", tuple(seq)))
         ctx.traces_impl += 1
         got = simnet.run(lambda net: one(net, seq))
-        if got != content[m:]:
-            ctx.disagree("offset_after", [list(s) for s in seq], m, len(content) - len(got))
+        used = [len(content) - len(g) if content.endswith(g) else -1 for g in got]
+        if used != [min(x, len(content)) for x in m]:
+            ctx.disagree("transfer_trace", [list(s) for s in seq], m, used)
+        want = py_offsets(seq)
+        if got != [content[w:] for w in want]:
+            ctx.violation(
+                "a restart offset did not apply to exactly the next transfer command",
+                {"key": "c01-offset-not-next-transfer-only", "seq": [list(s) for s in seq], "served_from": used, "expected": want},
+            )
+        if any(a[0] == "retr" and b[0] == "retr" for a, b in zip(seq, seq[1:])):
+            n_b2b += 1
         if len(xcheck) < 90:
-            xcheck.append((9, [[[0, s[1]] if s[0] == "rest" else [1, VERBS[s[0]][1]] for s in seq] + [[1, 5]]], m))
+            xcheck.append((9, enc(seq), m))
     ctx.count("offset_sequences", len(seqs))
+    ctx.count("offset_sequences_with_back_to_back_transfers", n_b2b)
+
+
+def missing_restart_stream(ctx, xcheck):
+    """(f) REST n + STOR/APPE on a MISSING file: 451, nothing created, the session goes on and a plain
+    upload afterwards stores exactly its payload -- on all three backends"""
+    rng = ctx.rng
+    cases = []
+    for backend in ("memory", "pathio", "asyncpathio"):
+        for verb in ("STOR", "APPE"):
+            for off in (1, 5, 0):
+                for payload in (b"", b"x", bytes(rng.randrange(256) for _ in range(rng.randint(2, 12)))):
+                    cases.append((backend, verb, off, payload, rng.choice(["pasv", "epsv"]), rng.choice([1, 3, 64])))
+    mo = ctx.model([(15, [MODES[VERB_MODE[v]], off, [], ([p] if p else []) + [b""]]) for _, v, off, p, _, _ in cases])
+
+    async def one(net, backend, base, verb, off, payload, passive, bs):
+        server = aioftp.Server([aioftp.User(base_path=base if base is not None else "/", home_path="/")], path_io_factory=BACKENDS[backend], block_size=bs)
+        await server.start("127.0.0.1", 2121)
+        store = Store(backend, server, base)
+        c = aioftp.Client(passive_commands=(passive,))
+        await c.connect("127.0.0.1", 2121)
+        await c.login()
+        res = {"refused": None, "after": None, "exists": None, "then": None}
+        factory = c.upload_stream if verb == "STOR" else c.append_stream
+        try:
+            async with factory(FNAME, offset=off) as stream:
+                if payload:
+                    await stream.write(payload)
+            res["refused"] = "no"
+        except aioftp.StatusCodeError as e:
+            res["refused"] = "+".join(str(x) for x in e.received_codes)
+        except Exception as e:  # the data connection may already be gone when the client writes
+            res["refused"] = type(e).__name__
+        res["after"] = store.get(FNAME)
+        obs = aioftp.Client(passive_commands=("epsv",))
+        await obs.connect("127.0.0.1", 2121)
+        await obs.login()
+        res["exists"] = await obs.exists(FNAME)
+        await obs.quit()
+        try:
+            async with c.upload_stream(FNAME) as stream:
+                await stream.write(b"after")
+            res["then"] = store.get(FNAME)
+        except Exception as e:
+            res["then"] = type(e).__name__
+        await c.quit()
+        await server.close()
+        return res
+
+    for (backend, verb, off, payload, passive, bs), m in zip(cases, mo):
+        ctx.case(("missing_restart", backend, verb, off, payload, passive, bs))
+        ctx.traces_impl += 1
+        base = None
+        if backend != "memory":
+            TMP_ROOT.mkdir(parents=True, exist_ok=True)
+            base = TMP_ROOT / f"c01-{os.getpid()}-{random.getrandbits(48):012x}"
+            base.mkdir()
+        try:
+            res = simnet.run(lambda net: one(net, backend, base, verb, off, payload, passive, bs))
+        finally:
+            if base is not None:
+                shutil.rmtree(base, ignore_errors=True)
+        rep = {"backend": backend, "verb": verb, "offset": off, "payload": payload.hex(), "passive": passive, "block_size": bs}
+        # model: (0 (1)) = 451 and still missing, (0 (0 bytes)) = stored
+        model_refused = m[0] == 0 and m[1][0] == 1
+        model_bytes = None if model_refused or m[0] != 0 else bytes(m[1][1])
+        impl = (res["refused"] != "no", res["after"])
+        if impl != (model_refused, model_bytes):
+            ctx.disagree("missing_restart", rep, [model_refused, None if model_bytes is None else model_bytes.hex()], [res["refused"], None if res["after"] is None else res["after"].hex()])
+        if off:
+            ok = res["refused"] == "451" and res["after"] is None and res["exists"] is False
+        else:
+            ok = res["refused"] == "no" and res["after"] == payload and res["exists"] is True
+        if not ok or res["then"] != b"after":
+            ctx.violation(
+                f"REST {off} + {verb} on a missing file: expected " + ("451 and no file" if off else "the payload stored") + ", then a working session",
+                {"key": f"c01-missing-file-restart-{backend}", "input": rep, "refused": res["refused"],
+                 "after": None if res["after"] is None else res["after"].hex(), "exists": res["exists"],
+                 "then": res["then"].hex() if isinstance(res["then"], bytes) else res["then"]},
+            )
+        if len(xcheck) < 96:
+            xcheck.append((15, [MODES[VERB_MODE[verb]], off, [], ([payload] if payload else []) + [b""]], m))
+    ctx.count("rest_plus_upload_on_missing_file", len(cases))
 
 
 def correspondence(ctx, scale=None):
@@ -1172,7 +1306,9 @@ def correspondence(ctx, scale=None):
         "end, beyond end) x verb (upload_stream, append_stream, download_stream, upload(), download()) x server block size (1,3,4,7,"
         "64,default) x client chunking x backend (MemoryPathIO, PathIO, AsyncPathIO, buffering slow-close) x EPSV/PASV x throttles "
         "x latency x mid-transfer stalls x segmentation (every split of payloads up to 5-6 bytes; byte-by-byte; random) on data and control channels x "
-        "pre-existing content (missing, shorter, equal, longer); (e) REST/TYPE/NOOP sequences before RETR vs offset_after; (b2) "
+        "pre-existing content (missing, shorter, equal, longer); (e) REST/TYPE/NOOP/RETR sequences (RETRs anywhere, also back to back over one passive listener; 5 fixed incl. the former F14 "
+        "witness + 45 random) vs transfer_trace and the offset oracle; (f) REST n + STOR/APPE on a missing file: 3 backends x 2 verbs x offsets "
+        "(1, 5, 0) x 3 payloads; (b2) "
         "timed read traces: 0-6 segments at non-decreasing instants (gaps 0..1000) x scripted wait delays (0..5000) x block size, real "
         "ThrottleStreamIO.read on the virtual clock vs timed_trace (blocks AND instants). A case "
         "is non-trivial when its full input tuple is distinct (hash); every session case moves real bytes through the real code."
@@ -1181,6 +1317,7 @@ def correspondence(ctx, scale=None):
     pure_streams(ctx, xcheck, scale)
     session_stream(ctx, xcheck, scale, reps=6 if thorough else 1)
     offset_stream(ctx, xcheck)
+    missing_restart_stream(ctx, xcheck)
     ok, out = core.vm_crosscheck(EXTRACT, xcheck[:100])
     ctx.extra["vm_compute_crosscheck"] = {"cases": len(xcheck[:100]), "agree": ok}
     if not ok:
